@@ -70,6 +70,11 @@ RULE = (
     "trailing slash, ordered decoded query items, decoded fragment) of the re-parsed output "
     "equals that of the cleaned input. quick: every atom sequence of length <= 1 in each "
     "component + the structure sweep + seeded random URLs; thorough: length <= 2 + more random. "
+    "ACE label class (harness/punylaws.py): every label of the enumerated class (one character of every stringprep / NFKC-look-alike / "
+    "Latin-1 + Latin Extended-A class alone and next to ASCII, every pair of 48 class representatives (thorough: triples), ASCII-only and "
+    "empty payloads, non-punycode text behind the header, doubly encoded labels, lengths around 63, header / payload case) in front of a "
+    "TLD and by rotation alone, behind www., next to a Unicode label, upper-cased, as TLD, doubled; five URL shapes; the oracle evaluates "
+    "the decoder's laws on the labels of every case and compares the ASCII-compatible spelling of the hosts. "
     "Non-trivial = output differs from input and the URL has an escape, a dot segment, "
     "userinfo, a port or a non-ASCII character; distinct = distinct (url, options). "
     "Parser/printer round trip streams (harness/urlrt.py), on every case: the model's OWN urlsplit + "
@@ -85,15 +90,16 @@ RULE = (
     "literal) are withheld from these streams and counted (label outside-model:*)."
 )
 EXHAUSTIVE = {
-    "quick": "every atom sequence of length <= 1 (66+ atoms) in each of user, password, path segment, query key, query value, fragment x 4 option settings; structure sweep (scheme x host x port, dot-segment paths x query x fragment, userinfo shapes)",
+    "quick": "the enumerated ACE label class (5806 labels: single characters of every class, pairs of class representatives) in hosts; every atom sequence of length <= 1 (66+ atoms) in each of user, password, path segment, query key, query value, fragment x 4 option settings; structure sweep (scheme x host x port, dot-segment paths x query x fragment, userinfo shapes)",
     "thorough": "the same with every atom sequence of length <= 2",
 }
 TRUSTED = [
     "Lean 4 kernel; axioms audited",
     "urlsplit and the SplitResult accessors (.username .password .hostname .port) are MODELLED (Py/UrlSplit.lean, Py/UrlAccessors.lean) and compared with CPython on every run on the raw, cleaned and printed strings of every case and on the netloc torture strings; the old ops still ship the real parser's components to canonParts, the new op canonicalize_whole lets the model parse by itself, so both ties run; urlunsplit is modelled twice (UrlParts.urlunsplit, Py.urlunsplit20), proved equal (urlunsplit_models_agree) and both compared with the real one",
     "outside the parser model (withheld from the parse streams, counted): str.lower on non-ASCII cased characters of the host, _checknetloc (NFKC), IPv4 tail inside an IPv6 literal; _check_bracketed_host is otherwise the approximation bracketedHostOk",
-    "PunyClean (the idna decoder brings in no URL delimiter, '%', control or white-space character that its input did not hold, and decodes no label to the empty string) is assumed by the round-trip theorems and tested on the real codec for every label decoded in a run, next to PunyLaws",
-    "attempt_to_decode_idna (CPython idna codec) is the abstract parameter `puny`; the driver uses a per-case table computed by the real codec",
+    "the label decoder (decode_punycode_hostname on ONE xn-- label; CPython's idna codec underneath) is the abstract parameter `puny`; the driver uses a per-case table of the real function's answers (harness/punylaws.py: decode_label), so the model follows what the host rule really calls and the LAWS stand between a changed decoder and the theorems",
+    "the laws assumed of `puny` are hypotheses of the theorems, evaluated on the real decoder for every label of every case and for every label of an enumerated class of ACE labels put into hosts of the case stream (quick: 5806 labels, 7742 hosts; derived from the stringprep tables, NFKC look-alikes of the URL delimiters, the punycode grammar; harness/punylaws.py): PunyLaws (no dot, stable), PunyClean (brings in no URL delimiter, '%', control or white-space character, decodes no label to the empty string), IdnaLaws.same_name (the decoded label has the ASCII-compatible spelling of the label it was given: decoding never changes the NAME). The real decoder breaks same_name exactly on KF-C01-3",
+    "`ace` (the meaning of 'IDNA spelling': ToASCII of one label + ASCII lower-casing) is CPython's idna ENCODER, which ural does not use; abstract in the theorems, its law ace_lower is evaluated per label",
     "hand-written model Model/Canonicalize.lean + Model/UrlParts.lean + Model/Quote.lean, tied to the code by differential execution",
     "str.lower / str.strip on non-ASCII characters outside the model alphabet (DESIGN §4) are not modelled",
 ]
@@ -113,7 +119,11 @@ UNPROVED = (
     "bracket hypothesis is left (the former NoOddBracket / hbr region were KF-C01-1, KF-C01-2, now fixed). The default protocol must be "
     "scheme-shaped (DefaultProtocolOk), otherwise the cleaned string has no scheme. NOT theorems: that the "
     "Lean parser model IS CPython's urlsplit + accessors (compared on every run on raw / cleaned / printed "
-    "strings and on the netloc torture strings), and the IDNA codec (abstract, PunyLaws + PunyClean, tested)"
+    "strings and on the netloc torture strings), and the IDNA codec: the host clause (canon_host_name / canonicalize_same_host_name: "
+    "same ASCII-compatible spelling label by label) is a theorem for every decoder that keeps the name of the xn-- labels of the "
+    "host (SameNameOn; IdnaLaws.same_name), next to PunyLaws + PunyClean; that the real decoder does is evaluated per label on every "
+    "run, not proved - and it does not on KF-C01-3 (a decoded U+3002); KF-C01-4 (a decoded character unknown to Unicode 3.2 whose "
+    "NFKC form holds a delimiter makes urlsplit refuse the output) lies in the NFKC check, outside the parser model"
 )
 OPTS = [(False, False), (True, False), (False, True), (True, True)]
 DPS = ["https", "https", "http", "ftp", "https://", "wss:"]
